@@ -29,7 +29,7 @@ RULE = ("Rebalancing.make_trades on generated (holdings, targets, quotes, thresh
 ASSUMPTIONS = ["ties within 1e-12 relative of the threshold / 1e-9 of an integer lot accept both outcomes",
                "whole-lot mode: the threshold is compared with the weight of the imbalance itself (untruncated), as the property words it"]
 REQUIRED = ["C12:exact-threshold", "C12:trade-set", "C12:trade-wellformed", "C12:fractional-quantity", "C12:whole-lot-truncation", "C12:no-exception"]
-REQUIRED_CATS = ["after-a-refused-request", "quoted-at-zero", "mode:contracts", "mode:balanced", "previewed-on-another-state", "via-portfolio-space", "whole-lot-with-fractional-holding", "mode:tiny", "mode:exact-at", "mode:exact-notch-below", "mode:exact-notch-above", "mode:at", "mode:below", "mode:above", "mode:sublot", "mode:absent-held", "whole-lot", "fractional"]
+REQUIRED_CATS = ["user-contract-with-its-own-hash", "after-a-refused-request", "quoted-at-zero", "mode:contracts", "mode:balanced", "previewed-on-another-state", "via-portfolio-space", "whole-lot-with-fractional-holding", "mode:tiny", "mode:exact-at", "mode:exact-notch-below", "mode:exact-notch-above", "mode:at", "mode:below", "mode:above", "mode:sublot", "mode:absent-held", "whole-lot", "fractional"]
 REQUIRED_HITS = ["Rebalancing.make_trades"]
 TECHNIQUE = "runtime monitoring: reference model of the stated filtering rule compared with Rebalancing.make_trades on boundary-biased inputs"
 LEVEL_TEXT = ("Exploration with boundary-biased generation: the real make_trades is compared with an independent evaluation of the "
@@ -46,7 +46,7 @@ def exact_case(ctx):
     t = datetime(2019, 1, 1)
     fees = BrokerFees()
     ex = gen.new_exchange(t, fees)
-    c = rng.choice([ETF("A"), gen.SpotMult("P2", 2.0), gen.UserFuture("F4", 4.0, 0.25)])
+    c = rng.choice([ETF("A"), gen.SpotMult("P2", 2.0), gen.UserFuture("F4", 4.0, 0.25), gen.Listing("VOD", "LSE")])
     px = float(2 ** rng.randint(2, 8))
     dep = float(2 ** rng.randint(18, 24))
     ex.process_EventNBBO(EventNBBO(t, c, px, px))
@@ -84,9 +84,11 @@ def case(ctx, i, tier):
     if i % 8 == 7:
         return exact_case(ctx)
     rng = ctx.rng
-    pool = [ETF("A"), ETF("B"), ES(2019, 6), ETF("C"), ZN(2019, 9), gen.SpotMult("L10", 10.0)]
+    pool = [ETF("A"), ETF("B"), ES(2019, 6), ETF("C"), ZN(2019, 9), gen.SpotMult("L10", 10.0), gen.Listing("VOD", "LSE"), gen.Listing("VOD", "XETRA")]
     rng.shuffle(pool)
     cs = pool[: rng.randint(1, 4)]
+    if any(isinstance(c, gen.Listing) for c in cs):
+        ctx.cat("user-contract-with-its-own-hash")
     fees = BrokerFees(fixed=rng.choice([0, 0, 5.0]), proportional=rng.choice([0, 1e-3]))
     t = datetime(2019, 1, 1)
     ex = gen.new_exchange(t, fees)
